@@ -8,15 +8,17 @@ harness oracle, see known_findings.txt):
 * `render_exact_false_three_blocks` — three positive match blocks (ThisBlockPass never cleared);
 * `render_exact_false_nft_not_icmp` — nftables `NotICMPTypeAndCode` negates type and code separately.
 
-What IS proved, for all inputs (`…_partial` = the pieces of `RenderExact` that hold):
-* `filterRule_preserves_partial` — `FilterRuleToIPVersion`/`filterNets` never change the meaning;
-* `splitPortList_flatten_partial` — the 15-slot split keeps every port range, in order;
-* `render_exact_partial` — `CombineMatchAndActionsForProtoRule`: the rendered action rules take
-  exactly the rule's action when the match clauses hold and otherwise fall through with the
-  mark untouched.
-Not proved in Lean (covered by the text-exact correspondence + evaluation oracle only): that the
-clause list of `CalculateRuleMatch` is equivalent to the reference match, and the mark-bit
-invariants of one or two positive blocks plus negated blocks.
+What IS proved, for all inputs (`…_partial` = the part of `RenderExact` that holds):
+* `render_exact_partial` — END TO END, from `Policy.Rule` to the outcome: for every rule that needs at
+  most TWO positive match blocks (any number of negated blocks, any lists, any action), either
+  dataplane except nftables with a negated ICMP type+code, every packet of the rendered IP version,
+  every entry mark with the verdict bits clear and every continuation: the rendered rules take the
+  rule's action iff `ruleMatches`, and otherwise fall through with only the two scratch bits changed.
+  (Exactly the complement of the two findings above.)
+* pieces, each for all inputs: `filterRule_preserves_partial` (`FilterRuleToIPVersion`/`filterNets`
+  keep the meaning), `splitPortList_flatten_partial` (the 15-slot split keeps every port range),
+  `calculateRuleMatch_exact_partial` (the clause list of `CalculateRuleMatch` is the reference match),
+  `combine_exact_partial` (`CombineMatchAndActionsForProtoRule`).
 -/
 namespace CalicoVerif.C08
 open CalicoVerif.Netfilter CalicoVerif.Policy
@@ -111,9 +113,8 @@ theorem splitPortList_flatten_partial (ports : List PortRange) (p : Nat) :
 
 /-- `CombineMatchAndActionsForProtoRule` is exact for every action, match-clause list, entry mark
 with the verdict bits clear, flow logs on or off, tracked or untracked, either deny action, and any
-rules that follow: matching ⇒ allow/pass set their bit and RETURN, deny sets its bit and
-DROPs/REJECTs, log falls through; not matching ⇒ fall through with the mark untouched. -/
-theorem render_exact_partial (cfg : Cfg) (ctx : Ctx) (env : Env) (call : String → Mark → Result)
+rules that follow. -/
+theorem combine_exact_partial (cfg : Cfg) (ctx : Ctx) (env : Env) (call : String → Mark → Result)
     (pkt : Packet) (action : String) (act : RuleAction) (m : List Clause) (rs rest : List Netfilter.Rule)
     (mark : Mark)
     (hact : parseAction action = some act)
@@ -125,9 +126,45 @@ theorem render_exact_partial (cfg : Cfg) (ctx : Ctx) (env : Env) (call : String 
       else runRules env call pkt rest mark :=
   combine_exact cfg ctx env call pkt action act m rs rest mark hact hrs hA hP hD hmA hmP hmD
 
+/-- `CalculateRuleMatch`: for a rule it can render in one netfilter rule (what is left after the
+blocks), the clause list matches exactly when the CIDR + remaining criteria of the reference
+semantics hold (iptables; nftables unless the rule has a negated ICMP type+code). -/
+theorem calculateRuleMatch_exact_partial (env : Env) (pkt : Packet) (mark : Mark) (setName : String → String)
+    (r : Policy.Rule) (hs : Simple pkt.v6 r) (hi : env.dp = .ipt ∨ ∀ t c, r.notIcmp ≠ .typeCode t c) :
+    ∃ m, calculateRuleMatch setName pkt.v6 r = some m ∧
+      clausesMatch env pkt mark m = (netsMatch env r pkt && restMatch env setName r pkt) :=
+  calc_exact env pkt mark setName r hs hi
+
+/-- **End-to-end exactness for rules with at most two positive match blocks.**
+`numPositive` counts the positive blocks of the IP-version-filtered rule (source ports, destination
+ports, source CIDRs, destination CIDRs — each only when it overflows one netfilter match).
+Under `MarksOK` (non-zero, disjoint mark bits) and for any entry mark with the verdict bits clear,
+the rendered rules followed by ANY `rest` behave as: if the rule matches the packet, its action
+(`actionOutcome`: allow/pass set their bit and RETURN, deny sets its bit and DROPs/REJECTs, log
+continues); otherwise `rest` runs; in both cases on a mark that differs from the entry mark only in
+the two scratch bits. -/
+theorem render_exact_partial (cfg : Cfg) (ctx : Ctx) (env : Env) (call : String → Mark → Result) (pkt : Packet)
+    (setName : String → String) (r : Policy.Rule) (rest : List Netfilter.Rule) (mark : Mark) (act : RuleAction)
+    (mo : MarksOK cfg) (henv : EnvCatchAll env)
+    (hi : env.dp = .ipt ∨ ∀ t c, r.notIcmp ≠ .typeCode t c)
+    (hpos : ∀ rc, filterRuleToIPVersion pkt.v6 r = some rc → numPositive rc ≤ 2)
+    (hact : parseAction r.action = some act)
+    (hmA : mark &&& cfg.markAccept = 0) (hmP : mark &&& cfg.markPass = 0) (hmD : mark &&& cfg.markDrop = 0) :
+    ∃ rs mark', protoRuleToRules cfg ctx setName pkt.v6 r = some rs ∧
+      baseOf cfg.markScratch0 cfg.markScratch1 mark' = baseOf cfg.markScratch0 cfg.markScratch1 mark ∧
+      runRules env call pkt (rs ++ rest) mark =
+        if ruleMatches env setName r pkt then actionOutcome cfg env call pkt rest mark' act
+        else runRules env call pkt rest mark' :=
+  render_exact_le2 cfg ctx env call pkt setName r rest mark act mo henv hi hpos hact hmA hmP hmD
+
 /-! ### non-vacuity -/
 
 example : EnvCatchAll wEnv := by intro a; constructor <;> rfl
+example : MarksOK {} := by constructor <;> decide
+/-- the hypothesis `numPositive ≤ 2` is satisfiable by a rule that does use blocks (two of them),
+and the three-block witness violates it -/
+example : numPositive { threeBlockRule with srcNet := ["10.0.0.0/8"] } = 2 := by decide
+example : numPositive threeBlockRule = 3 := by decide
 example : (combineMatchAndActions {} {} "deny" [.proto false (.name "tcp")]).isSome = true := by decide
 example : (0 : Mark) &&& ({} : Cfg).markAccept = 0 := by decide
 /-- a rule that IS rendered exactly: the 10.1.2.3 source matches all three blocks -/
